@@ -1,11 +1,17 @@
 #!/bin/bash
-# usage: tools/try_seed.sh <seed-dir-name> <family> <count> [seed]   -- apply a seeded patch, run one family, revert
-S=$1; F=$2; N=$3; SEED=${4:-1}
+# tools/try_seed.sh <patch.diff> <Cxx> [<Cyy> ...]
+# apply a seeded change to /repo, run the quick checks named, print their verdict lines, undo the change.
+# (evidence files are restored from git afterwards: a run against a patched tree is not evidence)
+set -u
+patch="$1"; shift
 cd /verif
-git -C /repo apply /verif/seeded/$S/patch.diff || exit 2
-( cd harness && cargo build --release --offline --features verif 2>&1 | grep -E "^error" -A5 )
-mkdir -p work/try && harness/target/release/wph gen $F $SEED $N work/try >/dev/null
-lean/.lake/build/bin/wpmodel < work/try/$F.ops > work/try/$F.model
-echo "$S $F: diffs=$(diff work/try/$F.impl work/try/$F.model | grep -c '^<') oracle_viol=$(wc -l < work/try/$F.viol)"
-head -c 600 work/try/$F.viol | head -3
-git -C /repo checkout -- .
+if ! git -C /repo diff --quiet; then echo "refusing: /repo has uncommitted changes"; exit 2; fi
+git -C /repo apply "$patch" || { echo "patch does not apply"; exit 2; }
+trap 'git -C /repo checkout -- . ; git -C /verif checkout -- evidence 2>/dev/null' EXIT
+for p in "$@"; do
+  t0=$(date +%s)
+  out=$(./check "$p" --tier quick 2>&1); rc=$?
+  t1=$(date +%s)
+  echo "== $p rc=$rc ($((t1-t0))s)"
+  echo "$out" | grep -E "^VIOLATION|^KNOWN-FINDING|^OK|Traceback|Error" | head -8
+done
